@@ -28,15 +28,15 @@ AUDITED_UNSAFE = {
     ('Decode::decode_into (default)', 'assert_decoding_finished'): 'value was written to dst just before',
     ('<alloc::boxed::Box<T> as WrapperTypeDecode>::decode_wrapped', 'alloc'): 'layout has non-zero size on this branch',
     ('<alloc::boxed::Box<T> as WrapperTypeDecode>::decode_wrapped', 'from_raw'): 'memory from the global allocator with the same layout / dangling for ZST; second use after successful decode_into',
-    ('codec::encode_slice_no_len', 'transmute'): 'T is the primitive named by TYPE_INFO (C01 R01.3)',
+    ('helper:slice_no_len', 'transmute'): 'T is the primitive named by TYPE_INFO (C01 R01.3)',
     ('<[T; N] as Decode>::decode', 'assume_init'): 'decode_into succeeded',
     ('<[T; N] as Decode>::decode_into', 'write_bytes'): 'pointer to bytesize bytes of the destination',
     ('<[T; N] as Decode>::decode_into', 'from_raw_parts_mut'): 'zero-initialised just before',
     ('<[T; N] as Decode>::decode_into', 'assert_decoding_finished'): 'whole array initialised (bulk read or completed loop)',
     ('<[T; N] as Decode>::decode_into', 'deref-raw'): 'MaybeUninit<[T;N]> viewed as [MaybeUninit<T>;N]',
     ("<<[T; N] as codec::Decode>::decode_into::State<'_, T, N> as Drop>::drop", 'assume_init_drop'): 'only the first count elements, which are initialised',
-    ('codec::read_vec_from_u8s::{closure#0}', 'set_len'): 'within the capacity reserved by decode_vec_chunked; element type is plain data',
-    ('codec::decode_vec_with_len', 'transmute'): 'Vec<P> -> Vec<T> with T == P by TYPE_INFO',
+    ('helper:bulk::{closure#0}', 'set_len'): 'within the capacity reserved by decode_vec_chunked; element type is plain data',
+    ('helper:with_len', 'transmute'): 'Vec<P> -> Vec<T> with T == P by TYPE_INFO',
     ('<compact::ArrayVecWrapper<N> as Output>::write', 'set_len'): 'guarded by the capacity assert',
 }
 AUDITED_LEAK = {
@@ -55,7 +55,7 @@ def census(out, facts):
     for f in facts.fns:
         if not f.get('thir'):
             continue
-        key = fkey(f)
+        key = stable_fkey(facts, f)
         for node, parents in _walk_thir(f['thir'], [], f):
             k = node.get('k')
             if k == 'call':
@@ -150,7 +150,7 @@ def check_array(out, facts):
             wb, fr, rd = bseq[0], bseq[1], bseq[2]
             if sym.vstr(wb[3][2]) != sym.vstr(fr[3][1]) or sym.vstr(wb[3][0]) != sym.vstr(fr[3][0]) or sym.vstr(wb[3][1]) != '0:u8':
                 why.append('zero-fill and byte view do not cover the same pointer/length')
-            if 'calculate_array_bytesize' not in sym.vstr(fr[3][1]):
+            if role_name(facts, 'array_bytesize') not in sym.vstr(fr[3][1]):
                 why.append('byte length is not calculate_array_bytesize::<T, N>()')
             rb = sym.deinit(strip(rd[1]))
             if sym.vstr(rb) != sym.vstr(('call',) + tuple(fr[1:4])) and 'from_raw_parts_mut' not in sym.vstr(rb):
@@ -278,19 +278,19 @@ def check_default_decode_into(out, facts):
 
 def check_bulk_vec(out, facts):
     cfg = facts.cfg
-    f = facts.by_path.get('codec::read_vec_from_u8s')
+    f = roles(facts).get('bulk')
     if not f:
-        out.fail('R10.6', 'read_vec_from_u8s [%s]' % cfg, 'not found', '-')
+        out.fail('R10.6', 'helper:bulk [%s]' % cfg, 'bulk vector reader (bound ToMutByteSlice) not found', '-')
         return
     ok = any(p == 'T: byte_slice_cast::ToMutByteSlice' for p in f.get('preds', []))
-    out.ob('R10.6', 'read_vec_from_u8s element bound [%s]' % cfg, ok,
+    out.ob('R10.6', 'helper:bulk element bound [%s]' % cfg, ok,
            'set_len beyond initialised data is reachable for element types that are not plain data (bound ToMutByteSlice missing): %s' % f.get('preds'), f['loc'])
     g = facts.by_path.get('codec::decode_vec_with_len')
     if g:
         from .c08 import _walk_thir
         prims = set()
         for node, _p in _walk_thir(g['thir'], [], g):
-            if node.get('k') == 'call' and node.get('name') == 'read_vec_from_u8s':
+            if node.get('k') == 'call' and node.get('name') == tname(f['path']):
                 prims.add(node['ga'][0])
         want = {'u8', 'i8', 'u16', 'i16', 'u32', 'i32', 'u64', 'i64', 'u128', 'i128', 'f32', 'f64'}
         out.ob('R10.6', 'bulk reader instantiated only with primitives [%s]' % cfg, prims == want, 'read_vec_from_u8s is instantiated with %s' % sorted(prims), g['loc'])
